@@ -133,6 +133,19 @@ def run_property(prop, tier, seed, replay=None, keep=False, quiet=False):
         else:
             violations.append((k, f))
 
+    # ------------------------------------------------------------ ceilings
+    # A known finding is a *rare* event of a specific mechanism.  If cases carrying a known key become far more
+    # frequent than the mechanism can explain (ceiling = (denominator counter, max ratio)), that is reported as a
+    # violation of its own, with one of the cases as the witness.
+    ceilings = mod.ceilings(tier) if hasattr(mod, "ceilings") else {}
+    for key, (den, ratio) in sorted(ceilings.items()):
+        for e, f in list(known_lines):
+            if e["key"] == key and counters.get(den, 0) > 0 and f["count"] > ratio * counters[den] and f["count"] >= 20:
+                violations.append(("rate-anomaly:" + key, {"count": f["count"], "items": [
+                    {"payload": it["payload"], "detail": "%d cases carry the known key %s for %d %s: rate %.4f exceeds the ceiling %.4f of the listed mechanism | %s" % (
+                        f["count"], key, counters[den], den, f["count"] / float(counters[den]), ratio, it["detail"])}
+                    for it in f["items"][:2]]}))
+
     # ----------------------------------------------------- floors / verdict
     floors = mod.floors(tier) if hasattr(mod, "floors") else {}
     view = dict(counters)
